@@ -282,7 +282,8 @@ func genPubStress(g *genCtx) {
 			pcl = 1 + t%2 // Publication.Close from 1-2 goroutines, racing with Subscriber.Close and Publish
 		}
 		// late: subscribers (with a filter) that register while the publishers run; zero: the first `zero` subscribers do not wait (timeout 0)
-		g.op("stress pubs=%d subs=%d msgs=%d closers=%d seed=%d pclosers=%d late=%d zero=%d", r.rangeIn(1, 4), r.rangeIn(1, 5), r.rangeIn(10, 120), r.intn(3), r.intn(1<<30), pcl, (t%4)/2*(1+t%3), (t%5)/3)
+		// selfclose: extra subscribers that nobody receives from, with a short timeout and an OnTimeout callback that closes them
+		g.op("stress pubs=%d subs=%d msgs=%d closers=%d seed=%d pclosers=%d late=%d zero=%d selfclose=%d", r.rangeIn(1, 4), r.rangeIn(1, 5), r.rangeIn(10, 120), r.intn(3), r.intn(1<<30), pcl, (t%4)/2*(1+t%3), (t%5)/3, (t%3)/2*(1+t%2))
 	}
 }
 
@@ -300,7 +301,7 @@ func execPubStressCase(x *execCtx) {
 			fmt.Fprintf(real, "%s => bad-op\n", line)
 			continue
 		}
-		fmt.Fprintf(real, "%s => %s\n", line, pubStress(atoi(f["pubs"]), atoi(f["subs"]), atoi(f["msgs"]), atoi(f["closers"]), uint64(atoi(f["seed"])), atoiOr(f["pclosers"], 0), atoiOr(f["late"], 0), atoiOr(f["zero"], 0)))
+		fmt.Fprintf(real, "%s => %s\n", line, pubStress(atoi(f["pubs"]), atoi(f["subs"]), atoi(f["msgs"]), atoi(f["closers"]), uint64(atoi(f["seed"])), atoiOr(f["pclosers"], 0), atoiOr(f["late"], 0), atoiOr(f["zero"], 0), atoiOr(f["selfclose"], 0)))
 	}
 }
 
@@ -311,7 +312,7 @@ func atoiOr(s string, d int) int {
 	return atoi(s)
 }
 
-func pubStress(P, S, M, closers int, seed uint64, pclosers, late, zero int) string {
+func pubStress(P, S, M, closers int, seed uint64, pclosers, late, zero, selfclose int) string {
 	p := publisher.NewPublication[int]()
 	type subRec struct {
 		s       *publisher.Subscriber[int]
@@ -356,6 +357,17 @@ func pubStress(P, S, M, closers int, seed uint64, pclosers, late, zero int) stri
 		for _, sr := range subs {
 			sr.closedA = true
 		}
+	}
+	// "evict the slow consumer": nobody receives from these; the first delivery that times out closes the subscriber
+	// from inside its OnTimeout callback.  Afterwards the channel must be closed and no delivery goroutine may remain.
+	selfSubs := make([]*publisher.Subscriber[int], selfclose)
+	var selfFired atomic.Int64
+	for i := range selfSubs {
+		i := i
+		selfSubs[i] = p.Subscribe(0, publisher.WithTimeout[int](5*time.Millisecond), publisher.OnTimeout(func(int) {
+			selfFired.Add(1)
+			selfSubs[i].Close()
+		}))
 	}
 	var wgR, wgP sync.WaitGroup
 	for _, sr := range subs {
@@ -482,5 +494,18 @@ func pubStress(P, S, M, closers int, seed uint64, pclosers, late, zero int) stri
 			}
 		}
 	}
-	return fmt.Sprintf("dup=%d foreign=%d rejected=%d missing=%d left=%d %s", dup, foreign, rejected, missing, left, raceObs())
+	// every self-closing subscriber saw at least one message time out (P*M >= 1 messages, nobody receiving) unless the
+	// publication was closed first; either way its channel is closed by now
+	unclosed := 0
+	for _, ss := range selfSubs {
+		select {
+		case _, ok := <-ss.Receive():
+			if ok {
+				unclosed++
+			}
+		default:
+			unclosed++
+		}
+	}
+	return fmt.Sprintf("dup=%d foreign=%d rejected=%d missing=%d left=%d unclosed=%d %s", dup, foreign, rejected, missing, left, unclosed, raceObs())
 }
